@@ -21,7 +21,7 @@ Rec == ndJsonDeserialize(IOEnv.TRACE)
 VARIABLES i, bad
 vars == <<i, bad>>
 
-SampleIdx(n) == { k \in 1..n : k <= 40 \/ k > n - 40 \/ k % 997 = 0 \/ k % 1000 \in {7, 8} }
+SampleIdx(n) == { k \in 1..n : k <= 40 \/ k > n - 40 \/ k % 997 \in {0, 4} \/ k % 1000 \in {7, 8} \/ k \in 65530..65540 }
 
 Check(ev, what) ==
   CASE what = "well-formed" -> WellFormedPack(ev.bytes)
@@ -30,10 +30,14 @@ Check(ev, what) ==
     [] what = "exact"       -> /\ WellFormedPack(ev.bytes) /\ CountOf(ev.bytes) = Len(ev.value)
                                /\ \A k \in (IF ev.mode = "full" THEN 1..Len(ev.value) ELSE SampleIdx(Len(ev.value))) :
                                      ParsedEntry(ev.bytes, k) = ev.value[k] /\ EntrySizeOf(ev.bytes, k) = Len(BodyOf(ev.value[k]))
-    [] what = "parsed"      -> ev.parsed = [ok |-> TRUE, v |-> ev.value]
+    [] what = "parsed"      -> IF ev.mode = "full" THEN ev.parsed = [ok |-> TRUE, v |-> ev.value]
+                               ELSE /\ DOMAIN ev.parsed = {"ok", "v"} /\ ev.parsed.ok /\ Len(ev.parsed.v) = Len(ev.value)
+                                    /\ \A k \in SampleIdx(Len(ev.value)) : ev.parsed.v[k] = ev.value[k]
 \* the conjuncts an event failed (<<>> = accepted)
+\* mode "beyond": more files than the statement covers (65 536): nothing is demanded, the outcome is only reported
 Failed(ev) ==
-  IF ev.ser # "ok" THEN <<"serialize">>
+  IF ev.mode = "beyond" THEN <<>>
+  ELSE IF ev.ser # "ok" THEN <<"serialize">>
   ELSE SelectSeq(<<"well-formed", "ref-reader", "exact", "parsed">>, LAMBDA w : ~Check(ev, w))
 
 Init == i = 1 /\ bad = <<>>
